@@ -36,7 +36,10 @@ func dumpScalar(sb *strings.Builder, v interface{}) error {
 	return nil
 }
 
-func dumpVal(sb *strings.Builder, v interface{}) error {
+// oidOf gives the pointer-sharing class of a set / sorted set value (0 = held by one key only).
+type oidMap map[interface{}]int
+
+func dumpVal(sb *strings.Builder, v interface{}, oids oidMap) error {
 	switch t := v.(type) {
 	case nil:
 		sb.WriteString(" n")
@@ -63,14 +66,14 @@ func dumpVal(sb *strings.Builder, v interface{}) error {
 	case *set.Set:
 		ms := t.GetAll()
 		sort.Strings(ms)
-		fmt.Fprintf(sb, " S %d", len(ms))
+		fmt.Fprintf(sb, " S %d %d", oids[t], len(ms))
 		for _, m := range ms {
 			sb.WriteString(" " + X(m))
 		}
 	case *sorted_set.SortedSet:
 		ms := t.GetAll()
 		sort.Slice(ms, func(i, j int) bool { return ms[i].Value < ms[j].Value })
-		fmt.Fprintf(sb, " Z %d", len(ms))
+		fmt.Fprintf(sb, " Z %d %d", oids[t], len(ms))
 		for _, m := range ms {
 			if m.Score != m.Score {
 				return fmt.Errorf("NaN value")
@@ -93,6 +96,33 @@ func DumpState(raw sugardb.VerifRaw) (string, error) {
 		}
 	}
 	sort.Ints(idx)
+	// pointer classes: objects referenced by two or more keys, numbered by first occurrence
+	refs := map[interface{}]int{}
+	var order []interface{}
+	for _, db := range idx {
+		keys := make([]string, 0, len(raw.Store[db]))
+		for k := range raw.Store[db] {
+			keys = append(keys, k)
+		}
+		sort.Strings(keys)
+		for _, k := range keys {
+			switch t := raw.Store[db][k].Value.(type) {
+			case *set.Set, *sorted_set.SortedSet:
+				if refs[t] == 0 {
+					order = append(order, t)
+				}
+				refs[t]++
+			}
+		}
+	}
+	oids := oidMap{}
+	n := 0
+	for _, o := range order {
+		if refs[o] >= 2 {
+			n++
+			oids[o] = n
+		}
+	}
 	fmt.Fprintf(&sb, "M %d N %d", raw.MemUsed, len(idx))
 	for _, db := range idx {
 		m := raw.Store[db]
@@ -113,7 +143,7 @@ func DumpState(raw sugardb.VerifRaw) (string, error) {
 				}
 				fmt.Fprintf(&sb, " %d", kd.ExpireAt.UnixMilli())
 			}
-			if err := dumpVal(&sb, kd.Value); err != nil {
+			if err := dumpVal(&sb, kd.Value, oids); err != nil {
 				return "", err
 			}
 		}
